@@ -39,16 +39,16 @@ CLAIMED = {
     "C09": ("4 C09", "abstract interpretation of the six sibling step-cost functions into cost signatures compared with "
             "the objectives' definitions and with the name dispatch; CFG/guard analysis of the DP (memo overwrite "
             "guard and tuple layout, sieve skip, early exits, outer-product flag); partial evaluation of the "
-            "bipartition range expressions; must-pass-through of the cap widening"),
+            "bipartition range expressions; must-pass-through of the cap widening; option integrity (no re-binding of the objective / outer-product option, unchanged hand-over to delegates); provenance of the batch-index test (carriers vs appearance table)"),
     "C10": ("4 C10", "typestate of the depth-first traversal's ready set and guard of its yield; sibling cross-check of the "
             "recycled-id protocol (descending removal, positions before removal, append) over every pop/append loop; "
             "CFG pairing of single-assignment id counters with their uses; linear-form check of get_ssa_path's id"
-            "; def-use provenance of converted paths (caller-supplied paths need the input count); positional del treated as removal"),
+            "; def-use provenance of converted paths (caller-supplied paths need the input count); positional del treated as removal; sample evaluation of the inferred input count against its definition; ad-hoc per-node cache keys (shared with C02)"),
     "C11": ("4 C11", "abstract interpretation of the batched-matmul planner's layout expressions into sequences of "
             "index-group symbols (groups identified by their filling conditions) checked against the matmul contract; "
             "direction analysis of every transposition tuple; stage/position agreement of the single-operand planner "
             "and executor by construction/usage kinds; exception-type and normalisation discipline of tensordot's axes"
-            "; stage extraction of the executor (guard, polarity, order) matched against the plan by construction/usage roles; structural clauses of the pure-multiplication plan and of the tensordot equation; permutation guard of transposition-only plans"),
+            "; stage extraction of the executor (guard, polarity, order) matched against the plan by construction/usage roles; structural clauses of the pure-multiplication plan and of the tensordot equation; permutation guard of transposition-only plans; module-wide scan of transposition tuples in both spellings"),
     "C12": ("4 C12", "structural and partially-evaluated checks of the front end's rewrites: statement-order and guard of "
             "the fresh-symbol choice, partial evaluation of the ellipsis slice and of the interleaved index expressions, "
             "sibling agreement of the implicit-output implementations, guard/direction of the single-operand fast paths, "
@@ -59,15 +59,15 @@ CLAIMED = {
             "; computed layering of memo functions below cache tables and joint invalidation; memo-key carrier analysis of the per-tree contractor memo (shared with C02)"),
     "C14": ("4 C14", "fingerprint determinism/coverage by dependence analysis, cache policy as CFG path properties, "
             "writer/reader record-schema agreement"
-            "; overwriting publish of the durable store; sibling agreement of wrapper and sub-optimizer constructors on the effective objective"),
+            "; overwriting publish of the durable store; sibling agreement of wrapper and sub-optimizer constructors on the effective objective; pairing of sizes with their labels in the hashed structure"),
     "C15": ("4 C15", "atomic-publish typestate of every durable write (temp sibling + os.replace post-dominating), "
             "reader maps corrupt entries to KeyError on all paths"
-            "; writer never deletes an entry path; presence decided by the entry file alone"),
+            "; writer never deletes an entry path; presence decided by the entry file alone; def-use dependence of the temporary's name on per-writer identity inside the writing function; copying routines as in-place writers"),
     "C16": ("4 C16", "thread-keyed / content-addressed store discipline of per-query state and carry-over (result-"
-            "carrying attribute) analysis over the call graph"),
+            "carrying attribute) analysis over the call graph; class-level mutable containers mutated through self (all classes, built-in positive example); CFG path analysis of the searched-flag including exceptional edges out of the run"),
     "C17": ("4 C17", "seed plumbing over the resolved call graph, no global-RNG use under seeded entries, "
             "named-preset resolution (register_preset table) for sub-optimizers of seeded operations, "
-            "flow-sensitive hash-ordered iteration classification"),
+            "flow-sensitive hash-ordered iteration classification; per-class collection of tables keyed by label sets and consumer classification inside the ranking functions applied to their items"),
     "C18": ("4 C18", "sibling cross-check of the index-survival predicates and appearance tables of the cost simulators; "
             "uncompensated index drop reachability"
             "; symbolic case analysis (index on left / right / both) of the annealing move evaluator against the survival rule"),
